@@ -555,6 +555,17 @@ func init() {
 		}
 		return VBool{r}
 	}
+	intrinsics["crypto/subtle.ConstantTimeCompare"] = func(e *Exec, a []Value) Value {
+		x, y := e.bytesOf(a[0]), e.bytesOf(a[1])
+		if len(x) != len(y) {
+			return VInt{mint(0)}
+		}
+		r := BoolC(true)
+		for i := range x {
+			r = And(r, Eq(x[i], y[i]))
+		}
+		return VInt{Ite(r, mint(1), mint(0))}
+	}
 	intrinsics["encoding/hex.EncodeToString"] = func(e *Exec, a []Value) Value {
 		bs := e.bytesOf(a[0])
 		out := make([]byte, 0, 2*len(bs))
